@@ -390,6 +390,11 @@ func genC05Remote(rng *rand.Rand, idx int, thorough bool) *c05RemoteSpec {
 	for i := 0; i < nf; i++ {
 		sp.Faults = append(sp.Faults, c05Fault{Kind: kinds[rng.Intn(len(kinds))], AtPct: 5 + rng.Intn(85), ForMs: 300 + rng.Intn(1700)})
 	}
+	if idx == 1 || (thorough && idx%5 == 1) {
+		// the submitting node itself is SIGKILLed while part of the output is mirrored and restarted on its data
+		// directory: the mirror has to be resumed behind what is already stored
+		sp.Faults = append(sp.Faults, c05Fault{Kind: "restartL", AtPct: 25 + rng.Intn(40), ForMs: 300 + rng.Intn(1500)})
+	}
 	if idx == 0 {
 		// one trial per run breaks the connection for longer than the QUIC idle timeout (30 s), so that the
 		// transfer in progress ends with an error after bytes were stored and has to be resumed
@@ -527,6 +532,17 @@ func c05Remote(run *ev.Run, dir string, sp *c05RemoteSpec) {
 			R.Kill()
 			time.Sleep(time.Duration(f.ForMs) * time.Millisecond)
 			_ = R.Start()
+		case "restartL":
+			L.Kill()
+			time.Sleep(time.Duration(f.ForMs) * time.Millisecond)
+			if err := L.Start(); err != nil {
+				close(stop)
+				swg.Wait()
+				run.Inconclusive(fmt.Sprintf("C05 remote %d: submitting daemon did not restart: %v", sp.Idx, err))
+				return
+			}
+			// the readers' sessions ended with the daemon: they are replaced by fresh ones on the restarted daemon
+			readers = []*c05Reader{c05StartReader(L, id, 0, "plain", "after-restart", spec.Seed), c05StartReader(L, id, at/2, "json", "after-restart", spec.Seed)}
 		}
 		applied = append(applied, f.Kind)
 		run.Count("fault_"+f.Kind, 1)
@@ -615,11 +631,11 @@ func c05Remote(run *ev.Run, dir string, sp *c05RemoteSpec) {
 
 func runC05(tier string, args []string) {
 	run := ev.New("C05", tier, "exploration")
-	run.Rule("local: gated producer (PRNG stream, seeded chunk sizes incl. 64 KiB straddles, empty, failing, cancelled units); 2-4 readers attached at every gate and after completion with offsets from {0,1,written,written±1,size/2,size-1,size}, plain and JSON request forms; at gate k every reader with p<=n_k must hold exactly expected[p:n_k] and no EOF; after completion exactly expected[p:] then EOF. remote: unit on the far end of a 3-daemon chain while proxies cut/heal links and relay/remote daemons are SIGKILLed and restarted at seeded positions of the mirrored output; local stdout sampled (local first, remote second) must be a prefix of the remote file, equal at the end. distinct_nontrivial = distinct (unit class, offset class, live/post, request form) reader classes + distinct fault sequences applied")
+	run.Rule("local: gated producer (PRNG stream, seeded chunk sizes incl. 64 KiB straddles, empty, failing, cancelled units); 2-4 readers attached at every gate and after completion with offsets from {0,1,written,written±1,size/2,size-1,size}, plain and JSON request forms; at gate k every reader with p<=n_k must hold exactly expected[p:n_k] and no EOF; after completion exactly expected[p:] then EOF. remote: unit on the far end of a 3-daemon chain while proxies cut/heal links and relay/remote daemons and the submitting daemon itself are SIGKILLed and restarted at seeded positions of the mirrored output; local stdout sampled (local first, remote second) must be a prefix of the remote file, equal at the end. distinct_nontrivial = distinct (unit class, offset class, live/post, request form) reader classes + distinct fault sequences applied")
 	work := workDir()
 	rng := rand.New(rand.NewSource(run.Seed*15485863 + 5))
 	nLocal := run.Pick(12, 120)
-	nRemote := run.Pick(3, 40)
+	nRemote := run.Pick(4, 40)
 	locals := []*c05LocalSpec{}
 	for i := 0; i < nLocal; i++ {
 		locals = append(locals, genC05Local(rng, i))
